@@ -12,6 +12,7 @@ pub mod c09;
 pub mod c09_e2e;
 pub mod c10;
 pub mod c11;
+pub mod c12;
 pub mod c13;
 pub mod c15;
 pub mod c18;
@@ -42,6 +43,7 @@ pub fn registry() -> Vec<(&'static str, CheckFn)> {
         ("C09", c09::run as CheckFn),
         ("C10", c10::run as CheckFn),
         ("C11", c11::run as CheckFn),
+        ("C12", c12::run as CheckFn),
         ("C13", c13::run as CheckFn),
         ("C15", c15::run as CheckFn),
         ("C18", c18::run as CheckFn),
